@@ -209,5 +209,8 @@ pub fn check_c11(tier: Tier, seed: u64) -> i32 {
     check.run_exhaustive("exhaustive", total, make, |c| exec_fetch(Which::C11, c));
     let cases = tier.pick(200_000, 2_000_000);
     check.run_random("random", cases, || fcase(Which::C11, 24), |c| exec_fetch(Which::C11, c));
+    // the same claim under real concurrency (memrace engine, free-running threads): what the harness-owned orders
+    // above cannot reach is an interleaving *inside* one foyer call
+    crate::memrace::run_c11_free(&check);
     check.finish()
 }
